@@ -290,10 +290,9 @@ def stateless_constructs(chk, repo, rule):
                 for kind, root, target, node in stores(repo, fi):
                     if kind == "global_store" or isinstance(target, ast.Name):
                         continue
-                    tgt = target.value if isinstance(target, (ast.Attribute, ast.Subscript)) and kind in ("attr_store", "item_store") else target
-                    probe = target if kind in ("attr_store", "item_store") else (target.value if isinstance(target, ast.Attribute) else target)
-                    inner = probe.value if isinstance(probe, (ast.Attribute, ast.Subscript)) else probe
-                    if shared_path(inner, aliases) or (isinstance(inner, ast.Name) and inner.id in aliases):
+                    # the object that is changed: x in `x.a = v`, `x[k] = v`, `x.update(..)`
+                    container = target.value if isinstance(target, (ast.Attribute, ast.Subscript)) else target
+                    if shared_path(container, aliases) or (isinstance(container, ast.Name) and container.id in aliases):
                         bad.append(short(node, 60))
                 chk.require(not bad, rule, f"{mod.relpath}:{q}.{st.name}", f"{q}.{st.name} keeps nothing in the parse-wide part of the context",
                             f"{q}.{st.name} stores into the part of the parse context that all records of one parse call share ({bad[:2]}): what the first record of a request leaves there "
@@ -451,3 +450,72 @@ def variable_conversion_eval(chk, repo, rule):
             ok2 = isinstance(inner, Obj) and inner.cls == "LazilyIndexedWrapper" and inner.fields.get("array") is data  # which lock (if any) is C19's business
             chk.require(ok2, rule, where, "Array data is wrapped as LazilyIndexedArray(LazilyIndexedWrapper(array, ...))",
                         f"Array data reaches xr.Variable as {d!r:.80}: not the lazily indexed wrapper around the variable's own array", key="to_variable:lazy")
+
+
+MODEL_PRODUCTS = {
+    # type code: (bits per sample, samples per data group (pixel), bytes per data group)
+    "IU2": (16, 1, 2),
+    "C*8": (32, 2, 8),
+}
+
+
+def array_metadata_on_model(repo, L, code, n_declared=6, n_parsed=4, pixels=5):
+    """sar_image.metadata.transform_metadata evaluated on a model descriptor of product kind ``code`` (every field of the layout
+    present: the ones the format defines for this kind filled consistently, all others blank: -1 / '') and ``n_parsed`` line
+    records whose sample areas are exactly pixels x bytes-per-pixel long, with the per-line and attribute conversions stubbed.
+    -> {"shape": (..), "byte_ranges": [(..)], "type_code": .., "dtype": .., "want_ranges": [(..)]} or None when the evaluation does
+    not get there"""
+    from collections import OrderedDict
+    from ..shapes import Const, DictS, Fn, Interp, ListLit, Obj, ShapeError, TupS, _Raise
+    md = repo.module("ceos_alos2.sar_image.metadata")
+    bits, samples, nbytes = MODEL_PRODUCTS[code]
+    known = {"sample_group_data.bit_length_per_sample": bits, "sample_group_data.number_of_samples_per_data_group": samples, "sample_group_data.number_of_bytes_per_data_group": nbytes,
+             "sar_related_data_in_the_record.number_of_lines_per_dataset": n_declared, "sar_related_data_in_the_record.number_of_data_groups_per_line": pixels,
+             "sar_related_data_in_the_record.number_of_sar_data_per_record": 1, "prefix_suffix_data_locators.sar_data_format_type_code": code,
+             "number_of_sar_data_records": n_declared, "sar_data_record_length": 544 + pixels * nbytes}
+    header = DictS()
+    for name, lf in L.by_name("image_descriptor").items():
+        if lf.kind != "field":
+            continue
+        classes = [a.get("cls") for a in lf.chain]
+        if name in known:
+            v = known[name]
+        elif "AsciiInteger" in classes:
+            v = -1
+        elif "AsciiFloat" in classes:
+            v = float("nan")
+        elif lf.base in ("PaddedString",) or "PaddedString" in classes:
+            v = ""
+        else:
+            v = b""
+        cur = header
+        parts = name.split(".")
+        for p_ in parts[:-1]:
+            cur = cur.items.setdefault(p_, DictS())
+        cur.items[parts[-1]] = Const(v)
+    I = Interp(repo)
+    sc = I.module_scope(md)
+    group = Obj("Group", OrderedDict(path=Const("/"), url=Const(None), data=DictS(), attrs=DictS()))
+    sc.vars["transform_line_metadata"] = Fn("py", impl=lambda I_, a, kw: group, name="transform_line_metadata")
+    sc.vars["extract_attrs"] = Fn("py", impl=lambda I_, a, kw: DictS(), name="extract_attrs")
+    want = [(720 + i * (544 + pixels * nbytes) + 544, 720 + (i + 1) * (544 + pixels * nbytes)) for i in range(n_parsed)]
+    records = ListLit([DictS(OrderedDict(record_start=Const(a - 544), data=DictS(OrderedDict(start=Const(a), stop=Const(b))))) for a, b in want])
+    try:
+        out = I.call(I.resolve_global(md, "transform_metadata"), [header, records], {})
+    except (_Raise, ShapeError, RecursionError):
+        return None
+    if not (isinstance(out, TupS) and len(out.elts) == 2 and isinstance(out.elts[1], DictS)):
+        return None
+    am = out.elts[1]
+
+    def plain(v):
+        if isinstance(v, Const):
+            return tuple(v.v) if isinstance(v.v, list) else v.v
+        if isinstance(v, (TupS, ListLit)):
+            xs = [plain(x) for x in v.elts]
+            return None if any(x is None and not (isinstance(e, Const) and e.v is None) for x, e in zip(xs, v.elts)) else (tuple(xs) if isinstance(v, TupS) else xs)
+        return None
+    res = {k: plain(am.items.get(k)) for k in ("shape", "byte_ranges", "type_code")}
+    res["want_ranges"] = want
+    res["want_shape"] = (n_declared, pixels)
+    return res
